@@ -161,10 +161,13 @@ class Runner:
             self.add("message-without-file", f"{tag}: message does not name the file: {str(exc)[:200]}")
         if getattr(exc, "lineno", None) is not None and lit is not None:
             self.counters["lineno_checked"] += 1
-            if exc.lineno != lit.n_read:
-                key = "lineno-eof-off-by-one" if exc.lineno == lit.n_read + 1 and lit.next_calls > lit.n_read + lit.back_calls else "lineno-wrong"
-                self.add(key, f"{tag}: error reports line {exc.lineno} but the last line that was read is {lit.n_read} "
-                         f"(file has {self.nlines} lines)")
+            # lines a parser took from the file directly (lit.fh.read(), readline()) were read as well
+            last_read = lit.n_read + getattr(lit, "direct_lines", 0)
+            if exc.lineno != last_read:
+                key = "lineno-eof-off-by-one" if exc.lineno == last_read + 1 and lit.next_calls > lit.n_read + lit.back_calls else "lineno-wrong"
+                self.add(key, f"{tag}: error reports line {exc.lineno} but the last line that was read is {last_read} "
+                         f"({lit.n_read} through the line iterator, {getattr(lit, 'direct_lines', 0)} taken from the file directly; "
+                         f"file has {self.nlines} lines)")
 
     def check_closed(self, tag):
         self.counters["fd_checks"] += 1
